@@ -3,6 +3,7 @@ package sim
 // C14 — status tells the truth (per-reconcile part). Also the state strings of C08.
 
 import (
+	"strings"
 	"encoding/json"
 
 	corev1 "k8s.io/api/core/v1"
@@ -211,6 +212,15 @@ func (monC14) TaskEnd(s *Sim, t *Task) {
 			}
 			if string(st.Reason) != wantReason {
 				s.Violate("C14", "reason", "paused", "%s: canary paused, reason %q reported, the pause source says %q", t.Label(), st.Reason, wantReason)
+			}
+			// the Canary-Paused condition tells the same story as state and reason
+			if c := edsCond(st, edsv1.ConditionTypeEDSCanaryPaused); c != nil && c.Status == corev1.ConditionTrue {
+				if c.Reason != wantReason {
+					s.Violate("C14", "cond", "paused-reason", "%s: Canary-Paused condition gives reason %q, the pause source says %q (status.reason %q)", t.Label(), c.Reason, wantReason, st.Reason)
+				}
+				if !strings.Contains(c.Message, upToDate.Name) {
+					s.Violate("C14", "cond", "paused-replicaset", "%s: Canary-Paused condition message %q does not name the canary replica set %s", t.Label(), c.Message, upToDate.Name)
+				}
 			}
 		}
 		if st.State != want {
